@@ -26,11 +26,13 @@ Proof. apply fs_get_filter_ne. Qed.
 
 (* operations that only touch the temporary file *)
 Definition tmp_only (t:path) (o:fop) : Prop :=
-  match o with OCreate p => p = t | OAppend p _ => p = t | _ => False end.
+  match o with OCreate p => p = t | OAppend p _ => p = t | OTruncate p _ => p = t | OPwrite p _ _ => p = t | _ => False end.
 Lemma tmp_only_get t a o f : t <> a -> tmp_only t o -> fs_get a (run_op f o) = fs_get a f.
 Proof.
-  intros Hne Ho. destruct o as [p|p b|p b|s d]; cbn in Ho; try contradiction; subst p; cbn [run_op].
+  intros Hne Ho. destruct o as [p|p b|p b|s d|p n|p o b]; cbn in Ho; try contradiction; subst p; cbn [run_op].
   - apply fs_get_set_ne. exact Hne.
+  - destruct (fs_get t f); [apply fs_get_set_ne; exact Hne|reflexivity].
+  - destruct (fs_get t f); [apply fs_get_set_ne; exact Hne|reflexivity].
   - destruct (fs_get t f); [apply fs_get_set_ne; exact Hne|reflexivity].
 Qed.
 Lemma crash_tmp_only t a : t <> a -> forall ops f, Forall (tmp_only t) ops ->
@@ -40,9 +42,11 @@ Proof.
   - destruct Hin as [<-|[]]. reflexivity.
   - inversion Hall as [|o' r' Ho Hr]; subst. destruct Hin as [<-|Hin]; [reflexivity|].
     apply in_app_or in Hin. destruct Hin as [Hin|Hin].
-    + destruct o as [p|p b|p b|s0 d]; try (destruct Hin; fail).
-      apply in_map_iff in Hin. destruct Hin as [n [<- _]]. cbn in Ho. subst p.
-      apply (tmp_only_get t a (OAppend t (firstn n b)) f Hne). reflexivity.
+    + destruct o as [p|p b|p b|s0 d|p n|p o b]; try (destruct Hin; fail).
+      * apply in_map_iff in Hin. destruct Hin as [n [<- _]]. cbn in Ho. subst p.
+        apply (tmp_only_get t a (OAppend t (firstn n b)) f Hne). reflexivity.
+      * apply in_map_iff in Hin. destruct Hin as [n [<- _]]. cbn in Ho. subst p.
+        apply (tmp_only_get t a (OPwrite t o (firstn n b)) f Hne). reflexivity.
     + rewrite (IH _ Hr _ Hin). apply (tmp_only_get t); assumption.
 Qed.
 Lemma crash_states_app : forall ops1 ops2 f s, In s (crash_states f (ops1 ++ ops2)) ->
@@ -114,11 +118,39 @@ Proof.
   rewrite fs_get_set_ne by congruence. rewrite fs_get_del_ne by congruence. exact Hg.
 Qed.
 
+(* the general shape: operations on the temporary file only, then the rename *)
+Lemma crash_states_last : forall ops f, In (fold_left run_op ops f) (crash_states f ops).
+Proof.
+  induction ops as [|o r IH]; intro f; cbn [fold_left crash_states]; [left; reflexivity|].
+  right. apply in_or_app. right. apply IH.
+Qed.
+Theorem tmp_then_rename_safe : forall ops f a t old, t <> a -> Forall (tmp_only t) ops -> fs_get a f = Some old ->
+  forall s, In s (crash_states f (ops ++ [ORename t a])) ->
+  fs_get a s = Some old \/ (fs_get a s = fs_get t (fold_left run_op ops f) /\ fs_get a s <> None).
+Proof.
+  intros ops f a t old Hne Hall Hold s Hin. apply crash_states_app in Hin. destruct Hin as [Hin|Hin].
+  - left. rewrite <- Hold. apply (crash_tmp_only t a Hne ops f Hall s Hin).
+  - set (g := fold_left run_op ops f) in *.
+    assert (Hga : fs_get a g = Some old) by (rewrite <- Hold; apply (crash_tmp_only t a Hne ops f Hall); apply crash_states_last).
+    cbn [crash_states app] in Hin. destruct Hin as [<-|[<-|[]]]; [left; exact Hga|].
+    cbn [run_op]. destruct (fs_get t g) as [b|] eqn:Eg; [|left; exact Hga].
+    right. rewrite fs_get_set_eq. split; [reflexivity|discriminate].
+Qed.
+Theorem sync_crash_safe : forall f a t old target writes, t <> a -> fs_get a f = Some old ->
+  forall s, In s (crash_states f (sync_ops a t target writes)) ->
+  fs_get a s = Some old \/ fs_get a s = fs_get t (fold_left run_op ([OCreate t; OTruncate t target] ++ map (fun w => OPwrite t (fst w) (snd w)) writes) f).
+Proof.
+  intros f a t old target writes Hne Hold s Hin. unfold sync_ops in Hin. rewrite app_assoc in Hin.
+  assert (Hall : Forall (tmp_only t) ([OCreate t; OTruncate t target] ++ map (fun w => OPwrite t (fst w) (snd w)) writes)).
+  2:{ destruct (tmp_then_rename_safe _ f a t old Hne Hall Hold s Hin) as [H|[H _]]; [left; exact H|right; exact H]. }
+  apply Forall_app. split; [repeat constructor|]. apply Forall_forall. intros o Ho. apply in_map_iff in Ho. destruct Ho as [w [<- _]]. reflexivity.
+Qed.
+
 (* a failure under an output-size limit leaves one of the crash states *)
 Theorem run_limited_crash_state : forall L ops f, In (run_limited L f ops) (crash_states f ops).
 Proof.
   intros L. induction ops as [|o r IH]; intro f; cbn [run_limited crash_states]; [left; reflexivity|].
-  destruct o as [p|p b|p b|s d]; try (right; apply in_or_app; right; apply IH).
+  destruct o as [p|p b|p b|s d|p n|p o b]; try (right; apply in_or_app; right; apply IH).
   destruct (Nat.eqb_spec (List.length b) 0) as [Hz|Hnz]; cbn [orb]; [right; apply in_or_app; right; apply IH|].
   destruct (Nat.leb_spec (fsize p f + List.length b) L) as [Hle|Hgt].
   - right. apply in_or_app. right. apply IH.
